@@ -56,7 +56,7 @@ end MOp
 inductive ASpec where
   | ver (s : Spec Ver)
   | gen (g : GSpec)
-deriving Repr
+deriving Repr, DecidableEq
 
 namespace ASpec
 def isAny : ASpec → Bool
@@ -223,6 +223,23 @@ def neReplace (name : String) (vals : List String) : M :=
 
 /-! ### atoms: specifier → atom, merging -/
 
+/-- the one clause a simple specifier renders as (`str(specifier)` of `from_specifier`) -/
+def fsClause? : Spec Ver → Option (Clause Ver)
+  | .range r => r.strClauses.head?
+  | .union rs t => unionSimplified rs t
+  | _ => none
+
+/-- `python_full_version` operands `X` / `X.Y` are padded to `X.Y.0` — never for `~=`, wildcards,
+    or versions with an epoch or a pre/post/dev segment (the `fix:` for D10) -/
+def fsPad (name : String) (c : Clause Ver) : Bool :=
+  name == "python_full_version" && c.op != .compat && !c.wild && c.ver.epoch == 0 &&
+    c.ver.isFinal && c.ver.release.length < 3
+
+/-- the operand text of the new atom -/
+def fsText (name : String) (c : Clause Ver) : String :=
+  if fsPad name c then ".".intercalate ((c.ver.release ++ List.replicate (3 - c.ver.release.length) 0).map toString)
+  else c.ver.str ++ (if c.wild then ".*" else "")
+
 /-- `MarkerExpression.from_specifier` (single.py:102-124, after the `fix:`); `none` = `None` -/
 def fromSpecifier (name : String) (s : ASpec) : Option M :=
   if s.isAny then some .any
@@ -238,20 +255,9 @@ def fromSpecifier (name : String) (s : ASpec) : Option M :=
     | .ver sp =>
       if !sp.isSimple then none
       else
-        let clause? : Option (Clause Ver) :=
-          match sp with
-          | .range r => r.strClauses.head?
-          | .union rs t => unionSimplified rs t
-          | _ => none
-        clause?.bind fun c =>
-          let v := c.ver
-          let pad := name == "python_full_version" && c.op != .compat && !c.wild && v.epoch == 0 &&
-                     v.isFinal && v.release.length < 3
-          let text :=
-            if pad then ".".intercalate ((v.release ++ List.replicate (3 - v.release.length) 0).map toString)
-            else v.str ++ (if c.wild then ".*" else "")
+        (fsClause? sp).bind fun c =>
           -- the new atom's specifier is derived from its own fields (the `fix:` for C10)
-          (mkAtom name (MOp.ofCOp c.op) text false).map .expr
+          (mkAtom name (MOp.ofCOp c.op) (fsText name c) false).map .expr
 
 /-- `spec1 & spec2` / `spec1 | spec2` on the specifier views; `none` = NotImplementedError (or a
     class mix that cannot occur for two atoms of one variable) -/
@@ -264,20 +270,23 @@ def aspecOr : ASpec → ASpec → Option ASpec
   | .ver a, .ver b => (a.or b).map .ver
   | _, _ => none
 
+/-- `value.split(".")` (on characters, so that it computes inside the kernel) -/
+def splitDots (s : String) : List String := (SpecParse.splitOnChar '.' s.toList).map String.ofList
+
 /-- `while len(splitted) > 2 and splitted[-1].isdigit() and int(splitted[-1]) == 0: splitted.pop()` -/
 def dropZeroSegs (l : List String) : List String :=
   let rec go : List String → Nat → List String
     | r, 0 => r
     | [], _ => []
     | x :: rest, n + 1 =>
-      if x.toNat? == some 0 then go rest n else x :: rest
+      if SpecParse.natOfDigits? x.toList == some 0 then go rest n else x :: rest
   (go l.reverse (l.length - 2)).reverse
 
 /-- `_normalize_python_version_specifier` (single.py:432-454, after the `fix:`s) -/
 def normalizePythonVersion (a : Atom) : Option ASpec :=
   if a.op == .in_ || a.op == .notIn then some a.spec
   else
-    let splitted := (a.value.splitOn ".").map trimS
+    let splitted := (splitDots a.value).map trimS
     if splitted.contains "*" then some a.spec
     else
     -- the `fix:`: python_version has two components, "3.8.0" compares like "3.8" (not for `~=`)
@@ -288,7 +297,7 @@ def normalizePythonVersion (a : Atom) : Option ASpec :=
       let bump (l : List String) : Option (List String) :=
         match l.reverse with
         | [] => none
-        | last :: init => (last.toNat?).map fun n => (toString (n + 1) :: init).reverse
+        | last :: init => (SpecParse.natOfDigits? last.toList).map fun n => (toString (n + 1) :: init).reverse
       let r : Option (MOp × List String) :=
         match a.op with
         | .eq | .ne => some (a.op, splitted ++ ["*"])
@@ -827,7 +836,7 @@ end
 inductive EnvVal where
   | str (s : String)
   | set (xs : List String)
-deriving Repr
+deriving Repr, DecidableEq
 
 abbrev Env := String → Option EnvVal
 
